@@ -77,7 +77,13 @@ QUICK = dict(steps=7)
 THOROUGH = dict(steps=11)
 DB_MARK = '{DB}'
 ALIASES = (('logica_home', False), ('logica_home', False), ('vault', False),
-           ('vault', True))      # True: logica_home is attached too, to ':memory:'
+           ('vault', True),      # True: logica_home is attached too, to ':memory:'
+           ('logica_test', False), ('logica_test', False))
+# logica_test: the dataset SQLite programs ground to when logica_home is not attached
+# (Annotations.Dataset); the user may attach a FILE under that alias as under any other
+FLAG_NAMES = ('fa', 'fb', 'tag', 'mode')
+FLAG_VALUES = ('a', 'b', 'c', 'ab', 'zz', 'q1')
+P_FLAGS = 0.45         # share of histories whose programs use ${flag} in string literals
 CUSTOM_TABLES = ('t_alpha', 't_beta', 't_gamma')
 REF_BUDGET = 500000
 PRED_BUDGET = 150000
@@ -213,6 +219,85 @@ def sure_direct_deps(prog):
             live |= model.expr_vars(e)
         d[r['pred']] |= ((_sure_scope(r['body'], live) | _fcalls(head)) & names)
     return d
+
+
+# ------------------------------------------------------------------ program flags
+
+def map_strings(x, fn):
+    """Rebuild a model value applying fn to the payload strings of ('lit', ...)."""
+    if isinstance(x, tuple):
+        if len(x) == 2 and x[0] == 'lit':
+            v = x[1]
+            if isinstance(v, str):
+                return ('lit', fn(v))
+            if isinstance(v, (list, tuple)):
+                return ('lit', [fn(y) if isinstance(y, str) else y for y in v])
+            return x
+        return tuple(map_strings(y, fn) for y in x)
+    return x
+
+
+def map_prog_strings(prog, fn):
+    p2 = dict(prog)
+    rules = []
+    for r in prog['rules']:
+        r2 = dict(r)
+        r2['head'] = map_strings(r['head'], fn)
+        r2['body'] = map_strings(r['body'], fn)
+        if r.get('value') is not None:
+            r2['value'] = map_strings(r['value'], fn)
+        rules.append(r2)
+    p2['rules'] = rules
+    p2['inj'] = collections.OrderedDict(
+        (k, map_strings(v, fn)) for k, v in prog.get('inj', {}).items())
+    return p2
+
+
+def flagify(rng, prog, names):
+    """Some string literals of the program get a "${flag}" reference (whole literal,
+    prefix or suffix): the documented parameter form next to FlagValue."""
+    p = rng.choice((0.25, 0.5, 0.8))
+
+    def fn(s):
+        if '${' in s or rng.random() >= p:
+            return s
+        ref_ = '${%s}' % rng.choice(names)
+        return rng.choice((ref_, ref_, s + ref_, ref_ + s))
+    return map_prog_strings(prog, fn)
+
+
+def substitute_flags(prog, values):
+    """The program the flag values denote: every ${name} replaced by its value."""
+    def fn(s):
+        for _ in range(len(values) + 1):
+            if '${' not in s:
+                break
+            for k, v in values.items():
+                s = s.replace('${%s}' % k, v)
+        return s
+    return map_prog_strings(prog, fn)
+
+
+def flagged_preds(prog):
+    out = set()
+    for r in prog['rules']:
+        hit = []
+
+        def fn(s):
+            if '${' in s:
+                hit.append(1)
+            return s
+        map_prog_strings({'rules': [r], 'inj': {}}, fn)
+        if hit:
+            out.add(r['pred'])
+    return out
+
+
+def split_flags(st_):
+    """A step may end with a dict of user flag values (`logica.py f.l run P --k=v`)."""
+    if st_ and isinstance(st_[-1], dict):
+        return list(st_[:-1]), dict(st_[-1])
+    return list(st_), {}
 
 
 # ------------------------------------------------------------------ variant generation
@@ -352,6 +437,10 @@ def build_case_variants(rng):
     base = gen.gen_program(rng, **OPTS)
     for k, v in base.get('excluded', {}).items():
         excluded[k] += v
+    fnames = []
+    if rng.random() < P_FLAGS:
+        fnames = rng.sample(FLAG_NAMES, rng.choice((1, 1, 2)))
+        base = flagify(rng, base, fnames)
     edbs = edb_names(base)
     if rng.random() < 0.6 and edbs:
         base['rules'] = list(base['rules']) + [workflow_rule(rng, base, rng.choice(edbs))]
@@ -364,6 +453,8 @@ def build_case_variants(rng):
     for _ in range(rng.choice((1, 2, 2))):
         if len(variants) == 2 and rng.random() < 0.45:
             other = gen.gen_program(rng, **OPTS)
+            if fnames:
+                other = flagify(rng, other, fnames)
             oe = edb_names(other)
             if rng.random() < 0.6 and oe:
                 other['rules'] = list(other['rules']) + [
@@ -380,13 +471,19 @@ def build_case_variants(rng):
                 break
         variants.append({'kind': kind, 'prog': p2})
     out = []
+    defaults = [[f, rng.choice(FLAG_VALUES)] for f in fnames]
     for v in variants:
+        if fnames and rng.random() < 0.3:
+            # the same flags with other default values
+            defaults = [[f, rng.choice(FLAG_VALUES)] for f in fnames]
+            labels.add('flags:variants_differ_in_defaults')
         alias, home_memory = rng.choice(ALIASES)
         defined = set(concrete_preds(v['prog']))
         names = [g for g in gnames if g in defined]
         out.append({'kind': v['kind'], 'alias': alias, 'home_memory': home_memory,
-                    'dataset_ann': alias != 'logica_home' or rng.random() < 0.15,
+                    'dataset_ann': alias == 'vault' or rng.random() < 0.15,
                     'ground': ground_spec(rng, names, alias),
+                    'flags': [list(d) for d in defaults],
                     'prog': model.prog_to_json(dict(v['prog'], labels=[], excluded={}))})
     return out, labels, excluded
 
@@ -400,6 +497,9 @@ class Variant(object):
         self.prog = model.prog_from_json(j['prog'])
         self.alias = j.get('alias', 'logica_home')
         self.ground = collections.OrderedDict()       # pred -> unqualified table name
+        self.flags = collections.OrderedDict((f, d) for f, d in j.get('flags', ()))
+        self.flag_ann = ['@DefineFlag("%s", "%s");' % (f, d)
+                         for f, d in self.flags.items()]
         ann = ['@AttachDatabase("%s", "%s");' % (self.alias, DB_MARK)]
         if j.get('home_memory') and self.alias != 'logica_home':
             # the default alias is taken by another (transient) database
@@ -414,7 +514,7 @@ class Variant(object):
             if explicit:
                 args.append('overwrite: true')
             ann.append('@Ground(%s);' % ', '.join(args))
-        self.prog['ann'] = ann
+        self.prog['ann'] = self.flag_ann + ann
         self.template = model.print_program(self.prog)
         self.text = self.template.replace(DB_MARK, db)
         self.path = None         # program file (written by the session)
@@ -423,14 +523,76 @@ class Variant(object):
         self.deps = {p: trans_deps(self.prog, p, dd) for p in self.preds}
         self.sure = {p: trans_deps(self.prog, p, sd) for p in self.preds}
         self._rules = None
+        self.flagged = flagged_preds(self.prog)
+        self.views = {}
+
+    def effective(self, user):
+        vals = collections.OrderedDict(self.flags)
+        for k in sorted(user or {}):
+            if k not in vals:
+                raise ValueError('flag %s is not defined by the variant' % k)
+            vals[k] = user[k]
+        return vals
+
+    def at(self, user=None):
+        """The variant under the given user flag values (memoised)."""
+        vals = self.effective(user)
+        key = tuple(vals.items())
+        if key not in self.views:
+            self.views[key] = View(self, vals, key)
+        return self.views[key]
+
+    def flag_reaches(self, g):
+        """A ${flag} occurs in the statement that writes grounded g: in its own rules
+        or in those of not grounded predicates compiled into it."""
+        dd = direct_deps(self.prog)
+        seen, stack = set(), [g]
+        while stack:
+            p = stack.pop()
+            if p in seen:
+                continue
+            seen.add(p)
+            if p in self.flagged:
+                return True
+            stack.extend(q for q in sorted(dd.get(p, ())) if q not in self.ground)
+        return False
+
+    def rules(self):
+        if self._rules is None:
+            self._rules = drive.parse_rules(self.text)
+        return self._rules
+
+    def plain_rules(self):
+        """The same program without @AttachDatabase/@Dataset/@Ground."""
+        return drive.parse_rules(model.print_program(dict(self.prog,
+                                                          ann=list(self.flag_ann))))
+
+    def gdeps(self, pred):
+        """Grounded predicates `pred` transitively depends on (pred itself excluded)."""
+        return [g for g in self.ground if g in self.deps[pred] and g != pred]
+
+    def keyless_aggregate(self, pred):
+        return any(r['pred'] == pred and not r['head'] and r.get('value') is not None
+                   and r['value'][0] == 'AGG' for r in self.prog['rules'])
+
+
+class View(object):
+    """One variant under one assignment of flag values: the denoted program (every
+    ${flag} replaced by its value) and its reference tables."""
+
+    def __init__(self, v, vals, key):
+        self.v = v
+        self.key = key
+        self.vals = vals
+        self.prog = substitute_flags(v.prog, vals) if v.flags else v.prog
         self.exp = {}            # pred -> (cols, rows) | None
         self.why = {}
         try:
             self.ev = ref.Evaluator(self.prog, budget=REF_BUDGET)
         except Exception:        # pragma: no cover
             self.ev = None
-        for p in self.preds:
-            bad = [q for q in self.preds if q in self.deps[p] and self.exp.get(q, 0) is None
+        for p in v.preds:
+            bad = [q for q in v.preds if q in v.deps[p] and self.exp.get(q, 0) is None
                    and self.why[q] == 'ref_too_big']
             if bad:
                 self.exp[p] = None
@@ -450,41 +612,25 @@ class Variant(object):
                 self.why[p] = 'ref_ambiguous'
         self.ev.budget = ref.Budget(REF_BUDGET)
 
-    def rules(self):
-        if self._rules is None:
-            self._rules = drive.parse_rules(self.text)
-        return self._rules
-
-    def plain_rules(self):
-        """The same program without @AttachDatabase/@Dataset/@Ground."""
-        return drive.parse_rules(model.print_program(dict(self.prog, ann=[])))
-
-    def gdeps(self, pred):
-        """Grounded predicates `pred` transitively depends on (pred itself excluded)."""
-        return [g for g in self.ground if g in self.deps[pred] and g != pred]
-
     def known(self, pred):
         """Reference values available for pred and all its grounded dependencies."""
+        v = self.v
         if pred not in self.exp:
             return 'undefined_predicate'
-        if [g for g in self.ground if g in self.sure[pred] and g != pred] != \
-                self.gdeps(pred):
+        if [g for g in v.ground if g in v.sure[pred] and g != pred] != \
+                v.gdeps(pred):
             return 'excluded:grounded_dependency_only_through_unused_aggregate_value'
         if self.exp[pred] is not None and not self.exp[pred][0][:-1] and \
-                not self.exp[pred][1] and self.keyless_aggregate(pred):
+                not self.exp[pred][1] and v.keyless_aggregate(pred):
             # SQL answers one null row, "no rows" is what the rules denote: C02's subject
             return 'excluded:keyless_aggregate_over_nothing'
-        for q in [pred] + self.gdeps(pred):
+        for q in [pred] + v.gdeps(pred):
             if self.exp[q] is None:
                 return self.why[q]
         return None
 
-    def keyless_aggregate(self, pred):
-        return any(r['pred'] == pred and not r['head'] and r.get('value') is not None
-                   and r['value'][0] == 'AGG' for r in self.prog['rules'])
-
     def runnable(self):
-        return [p for p in self.preds if self.known(p) is None]
+        return [p for p in self.v.preds if self.known(p) is None]
 
 
 def row_dicts(ev, pred, rows_tuples):
@@ -551,26 +697,33 @@ class Session(object):
         return '\n'.join(lines)
 
     # -- expectations
-    def expect_written(self, vi, written, exps=None):
+    def expect_written(self, vi, view, written, exps=None):
         """Model update: tables of the grounded predicates in `written` get the value
-        they have under variant vi (or under the overriding evaluator)."""
+        they have under variant vi with the flag values of `view` (or under the
+        overriding evaluator)."""
         v = self.variants[vi]
+        fkey = [list(x) for x in view.key]
         for g in written:
-            cols, rows = exps[g] if exps is not None else v.exp[g]
+            cols, rows = exps[g] if exps is not None else view.exp[g]
             key = v.ground[g].lower()
             old = self.model.get(key)
-            if old is not None and old['by'][0] != vi:
-                self.labels.add('hist:overwrite_other_variant')
+            if old is not None and (old['by'][0] != vi or old['by'][2] != fkey):
+                if old['by'][0] != vi:
+                    self.labels.add('hist:overwrite_other_variant')
+                else:
+                    self.labels.add('hist:overwrite_other_flag_values')
                 if old['cols'] != cols or canon.rows_match(rows, _raw(old['rows'])) \
                         is not None:
                     self.labels.add('hist:overwrite_changes_contents')
+                    if old['by'][0] == vi:
+                        self.labels.add('hist:flag_values_change_contents')
                     self.nontrivial = True
                 if old['by'][1] != g:
                     self.labels.add('hist:table_reused_by_other_predicate')
             elif old is not None:
                 self.labels.add('hist:rewrite_same_variant')
-            self.model[key] = {'cols': list(cols), 'rows': list(rows), 'by': [vi, g],
-                               'table': v.ground[g]}
+            self.model[key] = {'cols': list(cols), 'rows': list(rows),
+                               'by': [vi, g, fkey], 'table': v.ground[g]}
 
     def compare_file(self, before, asked=()):
         """-> list of (bucket, detail) comparing the file with self.model."""
@@ -579,7 +732,8 @@ class Session(object):
         for key, m in self.model.items():
             if key not in actual:
                 out.append(('file:missing_table', 'table %s expected (value of %s under '
-                            'variant %d) but absent' % (m['table'], m['by'][1], m['by'][0])))
+                            'variant %d%s) but absent' % (
+                                m['table'], m['by'][1], m['by'][0], _fl(m['by'][2]))))
                 continue
             cols, rows = actual[key]
             if cols != m['cols']:
@@ -593,21 +747,21 @@ class Session(object):
                 if b is not None and b[0] == cols and sorted(map(repr, b[1])) == sorted(
                         map(repr, rows)):
                     why = 'stale'
-                for vi, p in asked:
+                for vi, p, view in asked:
                     v = self.variants[vi]
-                    if v.ground.get(p, '').lower() == key and v.exp.get(p) and \
-                            canon.rows_match(v.exp[p][1], rows) is None:
+                    if v.ground.get(p, '').lower() == key and view.exp.get(p) and \
+                            canon.rows_match(view.exp[p][1], rows) is None:
                         why = 'asked_predicate_written'
                 out.append(('file:rows_differ:' + why,
-                            'table %s should hold the value of %s under variant %d\n%s\n'
-                            'expected %r\nactual   %r' % (
-                                m['table'], m['by'][1], m['by'][0], d,
+                            'table %s should hold the value of %s under variant %d%s\n%s'
+                            '\nexpected %r\nactual   %r' % (
+                                m['table'], m['by'][1], m['by'][0], _fl(m['by'][2]), d,
                                 sorted(map(repr, m['rows']))[:12],
                                 sorted(map(repr, rows))[:12])))
         for key in actual:
             if key not in self.model:
                 why = 'other'
-                for vi, p in asked:
+                for vi, p, view in asked:
                     if self.variants[vi].ground.get(p, '').lower() == key:
                         why = 'asked_predicate_written'
                 out.append(('file:unexpected_table:' + why,
@@ -648,10 +802,12 @@ class Session(object):
         return []
 
     # -- steps
-    def step(self, st_):
-        """-> ('ok'|'skip'|'inconclusive'|'fail', info)   info: reason | failures."""
+    def step(self, full):
+        """-> ('ok'|'skip'|'inconclusive'|'fail', info)   info: reason | failures.
+        A step may end with a dict: the user flag values of that run."""
         if self.dead:
             return 'skip', 'dead:' + self.dead
+        st_, user = split_flags(full)
         kind = st_[0]
         if kind == 'reopen':
             self.steps_done.append(list(st_))
@@ -661,35 +817,39 @@ class Session(object):
             return ('fail', fails) if fails else ('ok', None)
         vi = st_[1]
         v = self.variants[vi]
+        view = v.at(user)
         preds = [st_[2]] if kind in ('run', 'probe') else list(st_[2])
         for p in preds:
-            why = v.known(p)
+            why = view.known(p)
             if why:
                 return ('skip' if why.startswith('excluded:') else 'inconclusive'), why
         # 1. compile and derive the expectation; the file is not touched yet
         try:
             if kind == 'run':
-                plan = self.plan_run(vi, preds[0], cli=(len(st_) > 3 and st_[3] == 'cli'))
+                plan = self.plan_run(vi, view, user, preds[0],
+                                     cli=(len(st_) > 3 and st_[3] == 'cli'))
             elif kind == 'probe':
-                plan = self.plan_run(vi, preds[0], probe=(st_[3], st_[4]))
+                plan = self.plan_run(vi, view, user, preds[0], probe=(st_[3], st_[4]))
             elif kind == 'run_many':
-                plan = self.plan_many(vi, preds)
+                plan = self.plan_many(vi, view, user, preds)
             else:
-                raise ValueError('unknown step %r' % (st_,))
+                raise ValueError('unknown step %r' % (full,))
         except Skip as e:
             return 'skip', 'excluded:' + str(e)
         except (ref.TooBig, ref.Ambiguous):
             return 'inconclusive', 'ref_too_big'
         except drive.DIAGNOSTICS as e:
-            return self.refused(v, preds, e, st_)
+            return self.refused(v, user, preds, e, full)
         except ValueError:
             raise
         except Exception as e:
-            self.steps_done.append(json.loads(json.dumps(st_)))
+            self.steps_done.append(json.loads(json.dumps(full)))
             return 'fail', [('internal:' + drive.exc_frame(e),
                              traceback.format_exc()[-1500:])]
         # 2. execute
-        self.steps_done.append(json.loads(json.dumps(st_)))
+        self.steps_done.append(json.loads(json.dumps(full)))
+        if user:
+            self.labels.add('run:user_flag_values')
         if kind in ('run', 'run_many') and self.steps_done.count(self.steps_done[-1]) > 1:
             self.labels.add('hist:exact_repeat')
             self.nontrivial = True
@@ -701,25 +861,25 @@ class Session(object):
             return 'inconclusive', 'sqlite_budget'
         except sqlite3.Error as e:
             self.dead = 'run_error'
-            if self.fails_without_ground(v, preds):
+            if self.fails_without_ground(v, user, preds):
                 # the SQL of the program is broken with or without grounding: C01/C02
                 return 'inconclusive', 'program_fails_also_without_ground:' + \
                     sqlite_class(e)
             return 'fail', [('run_error:%s:%s' % (type(e).__name__, sqlite_class(e)),
                              'executing the statements of step %r raised %s: %s' % (
-                                 st_, type(e).__name__, e))]
+                                 full, type(e).__name__, e))]
         except Exception as e:
             self.dead = 'internal'
             return 'fail', [('internal:' + drive.exc_frame(e),
                              traceback.format_exc()[-1500:])]
         self.n_runs += 1
-        fails = fails + self.compare_file(before, asked=[(vi, p) for p in preds])
+        fails = fails + self.compare_file(before, asked=[(vi, p, view) for p in preds])
         if fails:
             self.dead = 'failed'
             return 'fail', fails
         return 'ok', None
 
-    def refused(self, v, preds, e, st_):
+    def refused(self, v, user, preds, e, st_):
         """The compiler refused the program with a diagnostic.  Whether the program
         itself is acceptable is not this property's business (C01/C19): only a refusal
         that disappears when the @Ground/@AttachDatabase/@Dataset lines are removed is
@@ -727,7 +887,7 @@ class Session(object):
         msg = common.first_line(e)
         for p in preds:
             try:
-                drive.compile_rules(v.plain_rules(), p)
+                drive.compile_rules(v.plain_rules(), p, flags=user)
             except drive.DIAGNOSTICS as e2:
                 return 'inconclusive', 'program_refused_also_without_ground:%s' % \
                     type(e2).__name__
@@ -740,17 +900,18 @@ class Session(object):
                          'annotations: %s\n%s' % (type(e).__name__, msg))]
 
     @staticmethod
-    def fails_without_ground(v, preds):
+    def fails_without_ground(v, user, preds):
         for p in preds:
             try:
-                prog, _ = drive.compile_rules(v.plain_rules(), p)
+                prog, _ = drive.compile_rules(v.plain_rules(), p, flags=user)
                 drive.execute(prog)
             except (sqlite3.Error, drive.Interrupted) + drive.DIAGNOSTICS:
                 return True
         return False
 
-    def run_labels(self, v, pred, gdeps):
+    def run_labels(self, v, pred, gdeps, view=None):
         self.labels.add('run:grounded_deps=%d' % min(len(gdeps), 3))
+        self.flag_labels(v, gdeps, view)
         if pred in v.ground:
             self.labels.add('run:asked_grounded_itself')
             if v.ground[pred].lower() in self.model:
@@ -761,27 +922,40 @@ class Session(object):
         if any(g not in dd[pred] for g in gdeps):
             self.labels.add('run:grounded_dep_only_via_intermediate')
 
-    def plan_run(self, vi, pred, probe=None, cli=False):
+    def flag_labels(self, v, gdeps, view):
+        if gdeps:
+            self.labels.add('run:writes_under_alias=' + v.alias)
+        if v.flags and view is not None:
+            hit = [g for g in gdeps if v.flag_reaches(g)]
+            if hit:
+                self.labels.add('run:flag_in_statement_of_written_table')
+                base = v.at({})
+                if view.key != base.key and any(
+                        view.exp[g] != base.exp[g] for g in hit
+                        if view.exp.get(g) and base.exp.get(g)):
+                    self.labels.add('run:user_flag_value_changes_written_table')
+
+    def plan_run(self, vi, view, user, pred, probe=None, cli=False):
         v = self.variants[vi]
-        prog, _ = drive.compile_rules(v.rules(), pred)
+        prog, _ = drive.compile_rules(v.rules(), pred, flags=user)
         ex = prog.execution
         # logica.py main, sqlite branch
         statements = [ex.preamble] + list(ex.defines_and_exports) + [ex.main_predicate_sql]
         gdeps = v.gdeps(pred)
-        exps, exp_main, tamper_at, labels = None, v.exp[pred], None, set()
+        exps, exp_main, tamper_at, labels = None, view.exp[pred], None, set()
         if probe:
             g, how = probe
             if g not in gdeps:
                 raise ValueError('probe target %s is not a grounded dependency' % g)
-            cols, rows = v.exp[g]
+            cols, rows = view.exp[g]
             trows = list(rows) * 2 if how == 'double' else []
-            ev2 = ref.Evaluator(v.prog, budget=REF_BUDGET,
-                                overrides={g: row_dicts(v.ev, g, trows)})
+            ev2 = ref.Evaluator(view.prog, budget=REF_BUDGET,
+                                overrides={g: row_dicts(view.ev, g, trows)})
             exps = {g: (cols, trows)}
             for q in gdeps:
                 if q != g:
-                    exps[q] = common.expected_rows(ev2, v.prog, q)
-            exp_main = common.expected_rows(ev2, v.prog, pred)
+                    exps[q] = common.expected_rows(ev2, view.prog, q)
+            exp_main = common.expected_rows(ev2, view.prog, pred)
             if v.keyless_aggregate(pred) and not exp_main[1]:
                 # a key-less aggregate over no rows (SQL: one null row) is C02's subject
                 raise Skip('keyless_aggregate_over_emptied_table')
@@ -789,17 +963,18 @@ class Session(object):
             idx = [i for i, s in enumerate(statements[:-1]) if s == marker]
             tamper_at = idx[0] if len(idx) == 1 else -1
             labels.add('probe:' + how)
-            if exp_main != v.exp[pred] or any(exps[q] != v.exp[q] for q in gdeps if q != g):
+            if exp_main != view.exp[pred] or any(exps[q] != view.exp[q] for q in gdeps
+                                                 if q != g):
                 labels.add('probe:changes_a_dependant')
 
         def execute():
             self.labels.add('step:' + ('probe' if probe else 'run'))
             self.labels |= labels
-            self.run_labels(v, pred, gdeps)
+            self.run_labels(v, pred, gdeps, view)
             if cli:
                 self.labels.add('run:through_logica_py_main')
-                hdr, rows = run_cli(v.path, pred)
-                self.expect_written(vi, gdeps)
+                hdr, rows = run_cli(v.path, pred, user)
+                self.expect_written(vi, view, gdeps)
                 if rows:
                     self.labels.add('run:result_nonempty')
                 return self.compare_result_csv(pred, exp_main, hdr, rows)
@@ -824,7 +999,7 @@ class Session(object):
                 raise
             finally:
                 con.close()
-            self.expect_written(vi, gdeps, exps=exps)
+            self.expect_written(vi, view, gdeps, exps=exps)
             if rows:
                 self.labels.add('run:result_nonempty')
             return self.compare_result(pred, exp_main, hdr, rows)
@@ -839,11 +1014,12 @@ class Session(object):
             con.execute('delete from %s' % q)
         con.commit()
 
-    def plan_many(self, vi, preds):
+    def plan_many(self, vi, view, user, preds):
         v = self.variants[vi]
         # tools/run_in_terminal.py RunMany
         with drive.quiet():
-            prog = drive.universe.LogicaProgram(copy.deepcopy(v.rules()), user_flags={})
+            prog = drive.universe.LogicaProgram(copy.deepcopy(v.rules()),
+                                                user_flags=dict(user))
             exs = []
             for p in preds:
                 prog.FormattedPredicateSql(p)
@@ -859,6 +1035,7 @@ class Session(object):
             if any(p in written for p in preds):
                 self.labels.add('run_many:asked_predicate_is_also_grounded_dependency')
             self.labels.add('run_many:grounded_deps=%d' % min(len(written), 3))
+            self.flag_labels(v, written, view)
             con = drive.connect()
 
             def runner(sql, engine, is_final):
@@ -877,7 +1054,7 @@ class Session(object):
                         exs, runner, 'sqlite', display_mode='silent')
             finally:
                 con.close()
-            self.expect_written(vi, written)
+            self.expect_written(vi, view, written)
             fails = []
             for p in preds:
                 if p not in res:
@@ -885,7 +1062,7 @@ class Session(object):
                                   'run_many returned no result for %s' % p))
                     continue
                 hdr, rows = res[p]
-                fails += self.compare_result(p, v.exp[p], list(hdr),
+                fails += self.compare_result(p, view.exp[p], list(hdr),
                                              [tuple(r) for r in rows])
             return fails
         return execute
@@ -935,7 +1112,7 @@ def csv_cell(x, printed=False):
     return str(x)
 
 
-def run_cli(path, pred):
+def run_cli(path, pred, user=None):
     """`python logica.py <path> run_to_csv <pred>` executed in this process (runpy, so
     the script's own __main__ branch and main() run); -> (header, rows of strings).
     The only interference: connections it opens get the instruction budget."""
@@ -962,7 +1139,8 @@ def run_cli(path, pred):
     sl.SqliteConnect = budgeted
     rc = 0
     try:
-        sys.argv = [script, path, 'run_to_csv', pred]
+        sys.argv = [script, path, 'run_to_csv', pred] + [
+            '--%s=%s' % (k, user[k]) for k in sorted(user or {})]
         with contextlib.redirect_stdout(out), contextlib.redirect_stderr(err):
             try:
                 runpy.run_path(script, run_name='__main__')
@@ -984,6 +1162,11 @@ def run_cli(path, pred):
     if not rows:
         raise CliError('logica.py printed nothing')
     return rows[0], [tuple(r) for r in rows[1:]]
+
+
+def _fl(fkey):
+    return (' with flag values %s' % ', '.join('%s=%s' % (k, v) for k, v in fkey)) \
+        if fkey else ''
 
 
 def _raw(rows):
@@ -1113,9 +1296,17 @@ class Hist(object):
             self.col.exclude('no_predicate_with_a_dependant_to_ground')
             return
         self.s = Session(variants)
+        # the user flag values the runs of this history may pass (besides none)
+        self.flag_sets = [{}]
+        names = [f for f, d in variants[0].get('flags', ())]
+        if names:
+            for _ in range(rng.choice((1, 2))):
+                fs = {n: rng.choice(FLAG_VALUES) for n in names if rng.random() < 0.7}
+                if fs and fs not in self.flag_sets:
+                    self.flag_sets.append(fs)
         for v in self.s.variants:
             for p in v.preds:
-                why = v.known(p)
+                why = v.at({}).known(p)
                 if why and why.startswith('excluded:'):
                     self.col.exclude(why[len('excluded:'):])
                 elif why:
@@ -1140,6 +1331,9 @@ class Hist(object):
                 if any(t != p for p, t in v.ground.items()):
                     labels.add('ground:custom_table_name')
                 labels.add('ground:n=%d' % len(v.ground))
+                labels.add('flags:defined=%d' % len(v.flags))
+                if v.flags and v.flagged:
+                    labels.add('flags:referenced_in_rules')
             if s.dead and s.dead not in ('failed', 'run_error', 'internal'):
                 labels.add('ended:' + s.dead)
             key = ([v.template for v in s.variants], s.steps_done)
@@ -1178,9 +1372,16 @@ def shard(ctx, col):
     def pick_variant(i):
         return i % len(H.s.variants)
 
-    def pick_pred(vi, i, grounded_bias):
+    def pick_flags(i):
+        opts = [{}] + H.flag_sets[1:] * 2
+        return dict(opts[i % len(opts)])
+
+    def fl(user):
+        return [user] if user else []
+
+    def pick_pred(vi, i, grounded_bias, user=None):
         v = H.s.variants[vi]
-        cands = v.runnable()
+        cands = v.at(user).runnable()
         if not cands:
             return None
         if grounded_bias == 1:
@@ -1205,15 +1406,16 @@ def shard(ctx, col):
             return H.s is not None and not H.s.dead
 
         @rule(vi=idx, pi=idx, bias=st.sampled_from([0, 1, 1, 1, 2]),
-              mode=st.sampled_from(['script', 'script', 'cli']))
-        def run(self, vi, pi, bias, mode):
+              mode=st.sampled_from(['script', 'script', 'cli']), fi=idx)
+        def run(self, vi, pi, bias, mode, fi):
             if not self.alive():
                 return
             vi = pick_variant(vi)
-            p = pick_pred(vi, pi, bias)
+            user = pick_flags(fi)
+            p = pick_pred(vi, pi, bias, user)
             if p is None:
                 return
-            self.last = ['run', vi, p] + (['cli'] if mode == 'cli' else [])
+            self.last = ['run', vi, p] + (['cli'] if mode == 'cli' else []) + fl(user)
             H.do(self.last)
 
         @precondition(lambda self: self.last is not None and self.alive())
@@ -1232,33 +1434,36 @@ def shard(ctx, col):
             v2 = others[vi % len(others)]
             ps = self.last[2] if isinstance(self.last[2], list) else [self.last[2]]
             v = H.s.variants[v2]
-            ps = [p for p in ps if p in v.preds and v.known(p) is None]
+            user = split_flags(self.last)[1]
+            ps = [p for p in ps if p in v.preds and v.at(user).known(p) is None]
             if not ps:
                 return
-            self.last = ['run', v2, ps[0]] if self.last[0] != 'run_many' or len(ps) < 2 \
-                else ['run_many', v2, ps]
+            self.last = (['run', v2, ps[0]] if self.last[0] != 'run_many' or len(ps) < 2
+                         else ['run_many', v2, ps]) + fl(user)
             H.do(self.last)
 
-        @rule(vi=idx, pi=idx, gi=idx, how=st.sampled_from(['double', 'empty']))
-        def probe(self, vi, pi, gi, how):
+        @rule(vi=idx, pi=idx, gi=idx, how=st.sampled_from(['double', 'empty']), fi=idx)
+        def probe(self, vi, pi, gi, how, fi):
             if not self.alive():
                 return
             vi = pick_variant(vi)
             v = H.s.variants[vi]
-            cands = [p for p in v.runnable() if v.gdeps(p)]
+            user = pick_flags(fi)
+            cands = [p for p in v.at(user).runnable() if v.gdeps(p)]
             if not cands:
                 return
             p = cands[pi % len(cands)]
             gs = v.gdeps(p)
-            H.do(['probe', vi, p, gs[gi % len(gs)], how])
+            H.do(['probe', vi, p, gs[gi % len(gs)], how] + fl(user))
 
-        @rule(vi=idx, picks=st.lists(idx, min_size=2, max_size=3), first=idx)
-        def run_many(self, vi, picks, first):
+        @rule(vi=idx, picks=st.lists(idx, min_size=2, max_size=3), first=idx, fi=idx)
+        def run_many(self, vi, picks, first, fi):
             if not self.alive():
                 return
             vi = pick_variant(vi)
             v = H.s.variants[vi]
-            cands = v.runnable()
+            user = pick_flags(fi)
+            cands = v.at(user).runnable()
             if len(cands) < 2:
                 return
             ps = []
@@ -1272,7 +1477,7 @@ def shard(ctx, col):
                     ps.append(p)
             if len(ps) < 2:
                 return
-            self.last = ['run_many', vi, ps[:3]]
+            self.last = ['run_many', vi, ps[:3]] + fl(user)
             H.do(self.last)
 
         @precondition(lambda self: self.alive() and bool(H.s.steps_done)
